@@ -202,11 +202,45 @@ func shards(tier string) []string {
 		}
 	}
 	out = append(out, semShards(tier)...)
+	for k := 0; k < 4; k++ {
+		out = append(out, fmt.Sprintf("long/%d", k))
+	}
+	return out
+}
+
+// longTexts: one-line texts in which a token, a quoted string, a concatenation or a comment runs for
+// n characters (plain letters and blanks, with a two-byte and a three-byte character at the start, in
+// the middle or at the end of the run, or none) and further statements follow on the same line.
+func longTexts(n int) []string {
+	var out []string
+	for _, mb := range []int{-1, 1, n / 2, n - 1} {
+		rs := make([]rune, n)
+		for i := range rs {
+			rs[i] = rune("abc defg"[i%8])
+		}
+		rs[0] = 'z'
+		if mb >= 0 && mb < n {
+			rs[mb] = 'é'
+			if mb+2 < n {
+				rs[mb+2] = '€'
+			}
+		}
+		run := string(rs)
+		tok := strings.ReplaceAll(run, " ", "_")
+		out = append(out,
+			`k "`+run+`"; q r; s "t" { u v; }`,
+			`k '`+run+`' + "`+run+`" ; q r;`,
+			tok+` a; q r; `+tok+` { u v; }`,
+			`k /* `+run+` */ "x"; q r; // `+run,
+			`k "`+run+"\n   "+run+`"; q r;`,
+			"\tk \"a"+run+"\"\t; q r { s t; }",
+		)
+	}
 	return out
 }
 
 func run(c *core.Ctx) {
-	c.Res.Bound = "pos: the C02 lexical spaces; fault: templates of <= 5 (thorough 6) pieces of 14 x every single-fault injection; sem: module templates x layouts x every eligible statement x 7 fault kinds"
+	c.Res.Bound = "pos: the C02 lexical spaces; fault: templates of <= 5 (thorough 6) pieces of 14 x every single-fault injection; long: one-line texts whose token, string, concatenation or comment runs for 1..160 characters with multi-byte characters at the start, middle, end or nowhere, positions of the following statements and of every injected fault; sem: module templates x layouts x every eligible statement x 7 fault kinds"
 	switch {
 	case strings.HasPrefix(c.Shard, "pos/"):
 		sp, idx := lexspace.Find(c.Tier, strings.TrimPrefix(c.Shard, "pos/"))
@@ -247,6 +281,57 @@ func run(c *core.Ctx) {
 			}
 			return true
 		})
+	case strings.HasPrefix(c.Shard, "long/"):
+		var k int
+		fmt.Sscanf(c.Shard, "long/%d", &k)
+		for n := 1; n <= 160; n++ {
+			if n%4 != k {
+				continue
+			}
+			for _, text := range longTexts(n) {
+				if c.Expired() {
+					return
+				}
+				caseNo, run := c.Begin()
+				if c.Skip(caseNo, run, Input{Kind: "pos", Text: text}) {
+					continue
+				}
+				c.Exec()
+				c.Edge(1)
+				c.StateN(1)
+				f, excl, _ := checkPos(text)
+				if excl != "" {
+					c.Exclude()
+					c.Outcome("excluded")
+					continue
+				}
+				c.Validate()
+				c.NontrivialN(1)
+				if f != nil {
+					c.Outcome("FAIL:" + f.fp)
+					c.Fail(caseNo, nil, "long:"+f.fp, Input{Kind: "pos", Text: text}, f.exp, f.obs)
+					continue
+				}
+				c.Outcome("positions-equal")
+				for _, inj := range inject(text) {
+					caseNo, run := c.Begin()
+					in := Input{Kind: "fault", Text: inj.text, Fault: inj.fault, Want: inj.want}
+					if c.Skip(caseNo, run, in) {
+						continue
+					}
+					c.Exec()
+					c.Edge(1)
+					c.StateN(1)
+					c.Validate()
+					if f := checkFault(inj); f != nil {
+						c.Outcome("FAIL:" + f.fp)
+						c.Fail(caseNo, nil, "long:"+f.fp, in, f.exp, f.obs)
+					} else {
+						c.Outcome("fault-position-exact:" + inj.fault)
+					}
+				}
+			}
+		}
 	case strings.HasPrefix(c.Shard, "fault/"):
 		var i, j int
 		fmt.Sscanf(c.Shard, "fault/%d/%d", &i, &j)
